@@ -335,6 +335,13 @@ func recordBatch(rec *recorder, rng *rand.Rand, trials int, repo string) int {
 		name := sm.name
 		for t := 0; t < trials; t++ {
 			n := 1 + rng.Intn(4)
+			switch rng.Intn(10) {
+			case 0:
+				n = 5 + rng.Intn(8) // 5..12
+			case 1:
+				// more samples than a machine has cores, and no multiple of the usual counts
+				n = []int{17, 19, 23, 29, 33, 37, 41}[rng.Intn(7)]
+			}
 			samples := make([]map[string][]float32, n)
 			for i := range samples {
 				samples[i] = map[string][]float32{}
